@@ -413,6 +413,14 @@ func runOne(line string) (out string) {
 				return "BAD_CASE"
 			}
 			batch.Receive(aggx.TimerMetric(realName(it[1], head.nameStyle()), head.Series[it[1]], hx.MustUnF(it[2]), hx.MustUnF(it[3])))
+		case "D": // D sid n base step: n datapoints base + i*step, rate 1
+			if len(it) != 5 {
+				return "BAD_CASE"
+			}
+			n, base, step := hx.MustInt(it[2]), hx.MustInt(it[3]), hx.MustInt(it[4])
+			for i := int64(0); i < n; i++ {
+				batch.Receive(aggx.TimerMetric(realName(it[1], head.nameStyle()), head.Series[it[1]], float64(base+i*step), 1))
+			}
 		case "m":
 			hand()
 		case "f":
@@ -564,6 +572,16 @@ func gen(args []string) {
 					idles++
 				}
 			}
+		}
+		if r.Chance(1, 25) {
+			// large timers, growing from one flush to the next (scratch buffers sized for an earlier, smaller timer)
+			sid := h.Order[0]
+			sizes := hx.Pick(r, [][]int{{3, 1500}, {3000, 4000}, {1100, 2100}, {2048, 2049, 4100}, {5, 1025}})
+			items = nil
+			for _, n := range sizes {
+				items = append(items, fmt.Sprintf("D %s %d %d %d", sid, n, r.Intn(50), r.Range(1, 3)), "f")
+			}
+			st.Hit("large-timers")
 		}
 		st.Hit(fmt.Sprintf("idle-flushes=%d", idles))
 		st.Hit(fmt.Sprintf("series=%d", ns))
